@@ -138,6 +138,17 @@ def _any_initializer(proto):
     return any(len(g.initializer) for g in _graphs(proto))
 
 
+def _plain_reference(raw, name):
+    """the failing source line uses the name in a position where the exporter never substitutes constants:
+    `lhs = name`, `range(name)`, `return ..., name`"""
+    lines = [ln.strip() for ln in raw.split("\n")[2:3]]
+    if not lines:
+        return False
+    ln = lines[0].split("#")[0].strip()
+    n = re.escape(name)
+    return bool(re.fullmatch(rf"[\w, ]+ = {n}", ln) or re.search(rf"range\({n}\)", ln) or re.match(rf"return\b.*\b{n}\b", ln))
+
+
 def _is_inlined_constant(proto, pyname, opts):
     """pyname is the Python name of a Constant node output (or small initializer) the exporter inlines"""
     from onnxscript.backend import onnx_export as ox
@@ -149,7 +160,7 @@ def _is_inlined_constant(proto, pyname, opts):
             if n.op_type == "Constant" and n.output and ox._cleanup_variable_name(n.output[0]) == pyname and \
                     ox._get_const_repr(n) is not None:
                 return True
-    return False
+    return any(ox._cleanup_variable_name(n) == pyname for n in _small_inlinable_initializers(proto))
 
 
 def mechanism(label, proto, opts, res):
@@ -181,7 +192,8 @@ def mechanism(label, proto, opts, res):
             if opts["rename"] and is_model and facts["params"] and name not in facts["assigned"] and \
                     not (set(facts["params"]) & facts["loaded"]) and re.fullmatch(r"v\d+", name):
                 return "graph_inputs_not_renamed_in_signature", "rename"
-            if opts["inline_const"] and name not in facts["assigned"] and _is_inlined_constant(proto, name, opts):
+            if opts["inline_const"] and name not in facts["assigned"] and _is_inlined_constant(proto, name, opts) and \
+                    _plain_reference(raw, name):
                 # loop bound `range(c)`, loop-carried initial value `state = c`, branch result `out = c`, `return c`:
                 # places where the exporter writes the variable name instead of substituting the constant
                 return "inlined_constant_still_referenced_by_name", "inline_const"
